@@ -82,7 +82,11 @@ archive_read_open_memory2(struct archive *a, const void *buff,
 	archive_read_set_seek_callback(a, memory_read_seek);
 	archive_read_set_skip_callback(a, memory_read_skip);
 	archive_read_set_close_callback(a, memory_read_close);
-	archive_read_set_callback_data(a, mine);
+	if (archive_read_set_callback_data(a, mine) != ARCHIVE_OK) {
+		/* Wrong state: the handle did not take ownership. */
+		free(mine);
+		return (ARCHIVE_FATAL);
+	}
 	return (archive_read_open1(a));
 }
 
